@@ -6,14 +6,18 @@
 (*   block   a finalised block: if none of its malformed transactions was applied, the app hash equals *)
 (*           the one of a reference execution of the same block without them (failures change nothing) *)
 (*   halt    FinalizeBlock failed: never explained (block processing must not fail)                    *)
+(*   begin, el, vote, ... the events of the relayer-membership histories (arbitrary decodable add /   *)
+(*           remove request lists over many blocks and elections, see Trace_Relayer): here they only  *)
+(*           pass; what counts is that none of these histories contains a `halt`                       *)
 (* A crash of the node kills the driver process; the check reports it from the input journal.          *)
 EXTENDS Naturals, Sequences, Json, TLC
 Trace == ndJsonDeserialize("trace.ndjson")
 VARIABLE l
 Init == l = 1
+HistoryEvents == {"begin", "el", "vote", "newvoter", "accept", "nonvoted", "other", "end", "idle"}
 Ev == Trace[l]
 Next == /\ l <= Len(Trace)
-        /\ \/ Ev.ev \in {"init", "unbuildable"}
+        /\ \/ Ev.ev \in {"init", "unbuildable"} \cup HistoryEvents
            \/ /\ Ev.ev = "input"
               /\ ~Ev.errored
               /\ Ev.kind = "proposal/garbage" => Ev.code = 1
